@@ -29,6 +29,17 @@ def _spec(draw, tier):
                         G.search_spec(max_geos=6, min_geos=3, constraint_p=0.25, elig_style='mixed')))
   if draw(st.booleans()):
     spec['params']['n_designs'] = draw(st.sampled_from([3, 5, 10]))
+  n_g = len(spec['panel']['ids'])
+  if n_g >= 3 and draw(st.integers(0, 2)) == 0:
+    # exact tie in single-geo required impact (decided by the volume order of the data, never by the names)
+    i = draw(st.integers(0, n_g - 1))
+    j = draw(st.integers(0, n_g - 2))
+    j = j if j < i else j + 1
+    spec['panel']['mirror'] = [[i, j, draw(st.sampled_from([16, -16, 64, 256]))]]
+    spec['params']['n_pretest_max'] = None
+    spec['params']['n_geos_max'] = draw(st.integers(2, max(2, n_g - 1)))
+    spec['params']['budget_q'] = None
+    spec['params']['share_q'] = None
   spec['transform'] = {
       'perm_seed': draw(st.integers(1, 10 ** 6)) if draw(st.booleans()) else None,
       'shift': draw(st.sampled_from([0, 0, 1, -1, 7, -7, 365, -400, 3])),
@@ -110,6 +121,8 @@ def run(spec):
   id_int = (not spec['panel']['id_int']) if tr['id_flip'] else None
   other_case = L.transformed(case, scale=scale, rename=rn, date_shift=tr['shift'], id_int=id_int, perm_seed=tr['perm_seed'])
   identity = not (tr['perm_seed'] or tr['shift'] or tr['rename'] or tr['k'] or (tr['id_flip'] and all(g.isdigit() for g in spec['panel']['ids'])))
+  if spec['panel'].get('mirror'):
+    cls.append('tied-impact-pair')
   for name in ('perm_seed', 'shift', 'id_flip', 'rename', 'k'):
     if tr[name]:
       cls.append('tr:' + name)
